@@ -93,7 +93,10 @@ func c08(r *core.Run) {
 	r.Rule("O5", "Event fields: Name equals the subject suffix; OldValues/removed Value/deleted Data flow from the apply handler's result; NewValues/added Value/created Data/Payload/Idx from the method's own arguments; Resource is the receiver", 15)
 	r.Rule("O6", "synchronous: no go statement in an event method before its publish, none in any function from which Conn.Publish is reachable, so one callback's messages reach the connection in program order", 5)
 
+	r.Rule("O7", "listeners reach the resource: every resource value that is given a routed handler (its handler field stored from a Match's Handler) is given, in the same construction, the listeners of that same Match; a resource built without them applies and publishes its events but notifies no listener", 2)
+
 	root := p.FuncsOfPkg("")
+	c08ListenersWired(r, "O7", root)
 	mp := mayPublish(p)
 	// helpers that (transitively) call listeners / apply handlers
 	mayNotify := mayExec(root, func(in ssa.Instruction) bool {
@@ -804,4 +807,82 @@ func reservedNameTable(p *core.Prog, fn *ssa.Function) (map[string]bool, ssa.Ins
 		}
 	}
 	return keys, nil
+}
+
+// c08ListenersWired: the constructions of a resource with a routed handler also
+// store that match's listeners.
+func c08ListenersWired(r *core.Run, rule string, root []*ssa.Function) {
+	p := r.P
+	isLst := func(t types.Type) bool {
+		sl, ok := t.Underlying().(*types.Slice)
+		if !ok {
+			return false
+		}
+		sig, ok := sl.Elem().Underlying().(*types.Signature)
+		return ok && sig.Params().Len() == 1 && core.TypeName(sig.Params().At(0).Type()) == "Event"
+	}
+	rH, ok1 := fieldByType(p, "", "resource", typeIs("Handler"))
+	rL, ok2 := fieldByType(p, "", "resource", isLst)
+	mH, ok3 := fieldByType(p, "", "Match", typeIs("Handler"))
+	mL, ok4 := fieldByType(p, "", "Match", isLst)
+	if !ok1 || !ok2 || !ok3 || !ok4 {
+		r.Unres(rule, "resource/Match fields", fmt.Sprintf("resource.handler=%v resource.listeners=%v Match.Handler=%v Match.Listeners=%v", ok1, ok2, ok3, ok4))
+		return
+	}
+	// the match a stored value was read from
+	fromMatch := func(v ssa.Value, f core.Field) (ssa.Value, bool) {
+		id := func(m ssa.Value) ssa.Value {
+			m = core.Strip(m)
+			if u, ok := m.(*ssa.UnOp); ok && u.Op == token.MUL {
+				switch u.X.(type) {
+				case *ssa.FreeVar, *ssa.Alloc:
+					return u.X // a captured / spilled variable: identified by its cell
+				}
+			}
+			return m
+		}
+		switch x := core.Strip(v).(type) {
+		case *ssa.UnOp:
+			if fa, ok := x.X.(*ssa.FieldAddr); ok {
+				if g, ok := core.FieldOf(fa); ok && g == f {
+					return id(fa.X), true
+				}
+			}
+		case *ssa.Field:
+			if g, ok := core.FieldOf(x); ok && g == f {
+				return id(x.X), true
+			}
+		}
+		return nil, false
+	}
+	base := func(addr ssa.Value) ssa.Value {
+		if fa, ok := addr.(*ssa.FieldAddr); ok {
+			return fa.X
+		}
+		return nil
+	}
+	lst := core.FieldAccesses(root, func(f core.Field) bool { return f == rL })
+	for _, ac := range core.FieldAccesses(root, func(f core.Field) bool { return f == rH }) {
+		st, ok := ac.Instr.(*ssa.Store)
+		if !ok || ac.Kind != "store" {
+			continue
+		}
+		m, ok := fromMatch(st.Val, mH)
+		if !ok {
+			continue // not a routed handler (zero value, copy)
+		}
+		good, why := false, "the construction stores no listeners"
+		for _, lc := range lst {
+			ls, ok := lc.Instr.(*ssa.Store)
+			if !ok || lc.Fn != ac.Fn || base(lc.Addr) == nil || base(lc.Addr) != base(ac.Addr) {
+				continue
+			}
+			if m2, ok := fromMatch(ls.Val, mL); ok && m2 == m {
+				good = true
+			} else {
+				why = "the listeners stored are not those of the match the handler was taken from: " + valDesc(ls.Val)
+			}
+		}
+		r.Check(good, rule, core.FuncName(ac.Fn), "resource-with-routed-handler-gets-its-listeners", p.InstrPos(st), "handler and listeners are stored from the same Match", "a resource is constructed with a routed handler but without that match's listeners ("+why+"): events emitted on it run the apply handler and are published, but no listener is called")
+	}
 }
